@@ -415,8 +415,18 @@ def run_httpreply(cell):
     api.assume(code[0:1] != '3')
     msg = ['2.0.0 fine', 'try again later', '5.1.1 no such user; really',
            'weird = "quoted" text'][api.choice('msg', 4)]
-    reply = Reply(code, msg)
-    res = _build_http_response(reply)
+    # replies that come from a relay behind the edge (ProxyQueue) carry the
+    # command they answer, as bytes
+    cmd = [None, 'DATA', b'RCPT', b'[SEND_DATA]'][api.choice('command', 4)]
+    reply = Reply(code, msg, command=cmd)
+    try:
+        res = _build_http_response(reply)
+    except api.Unsupported:
+        raise
+    except Exception as e:
+        api.fail('edge-raised', exc=type(e).__name__, msg=msg,
+                 command=repr(cmd))
+        return
     relay = HttpRelay('http://edge.test/')
     client = HttpRelayClient(relay)
     http_res = FakeHTTPResponse(int(res.status[:3]), res.status[4:],
